@@ -62,7 +62,10 @@ def majority(ctx):
         return
     if len(tests) != 1:
         raise AnalysisError("SimpleMajorityElection: expected one verdict test, found %d (unrecognised shape)" % len(tests))
-    cond = tests[0].cond
+    rdrift = [e for e in tr.returns() if len(e.stack) == 1 and e.value == const("drift")]
+    if len(rdrift) != 1:
+        raise AnalysisError("SimpleMajorityElection: expected one `return 'drift'` (unrecognised shape)")
+    cond = T.mk_and([p.cond for p in rdrift[0].pc])  # the verdict is drift exactly under these guards
     # the vote count: len([d for d in D if vote(d)])  or  sum(1 for d in D if vote(d))
     counts = []
     for a in T.atoms_of(cond, "call"):
@@ -90,9 +93,9 @@ def majority(ctx):
         raise AnalysisError("SimpleMajorityElection: threshold not decidable by constant folding: %s" % e)
     ctx.ob("TAB", site, "drift iff strictly more than half of the members vote drift", not bad,
            "cells (votes, members, verdict) that disagree: %s" % bad[:4], tests[0])
-    ret_true = [e for e in tr.returns() if len(e.stack) == 1 and e.value == const("drift")]
-    ok = len(ret_true) == 1 and any(p.cond == cond for p in ret_true[0].pc)
-    ctx.ob("FRM", site, "'drift' is returned exactly when the test holds", ok, "")
+    rnone = [e for e in tr.returns() if len(e.stack) == 1 and e.value == T.NONE]
+    ok = len(rnone) == 1 and T.mk_and([p.cond for p in rnone[0].pc]) == T.mk_not(cond)
+    ctx.ob("FRM", site, "None is returned exactly otherwise", ok, "")
 
 
 def counting_loop(ctx, cname, counters):
